@@ -411,7 +411,9 @@ def run_rules(ctx, res):
     r13 = _R13("C13", "quick", "other")
     _c13.run_printer_rules(ctx, r13)  # (not c13.run_rules: that one re-evaluates this module's box rule)
     _c13.run_immut_rules(ctx, r13)
-    v13 = [v for v in r13.violations if v.rule in ("R-C13-printer", "R-C13-immut")]
+    # (a floor — the printer or the payload aggregate no longer found — is imported too: an anchor lost in the imported
+    #  rule must not silently disable it here; found by round-6 change C06-r6-1)
+    v13 = [v for v in r13.violations if v.rule in ("R-C13-printer", "R-C13-immut", "floor")]
     res.inst(SKIP, "payload types of terminal variants (C13 printer and write-once rules)", "", True, "%d violations" % len(v13))
     for v in v13:
         res.violate(SKIP, "c13|" + v.key, v.where, "the emitted terminal enum must carry each variant's declared payload type: " + v.msg)
